@@ -88,6 +88,8 @@ func (e *c10E) src() string {
 		return e.B.src() + ".map(e->e+" + e.A.src() + ")"
 	case "laccept":
 		return e.B.src() + ".accept(e->e<" + e.A.src() + ")"
+	case "lguard":
+		return e.B.src() + ".map(e->e+0%(e-" + e.A.src() + "))"
 	case "ltop":
 		return e.B.src() + ".top(" + e.A.src() + ")"
 	case "lskip":
@@ -148,6 +150,8 @@ func (e *c10E) coq() string {
 		return "(LMap " + e.A.coq() + " " + e.B.coq() + ")"
 	case "laccept":
 		return "(LAccept " + e.A.coq() + " " + e.B.coq() + ")"
+	case "lguard":
+		return "(LGuard " + e.A.coq() + " " + e.B.coq() + ")"
 	case "ltop":
 		return "(LTop " + e.A.coq() + " " + e.B.coq() + ")"
 	case "lskip":
@@ -205,6 +209,19 @@ func (e *c10E) hasArg() bool {
 	return false
 }
 
+// some literal element of a closed list expression (the last one of the first literal found), 7 if there is none
+func (e *c10E) lastLit() int64 {
+	if e.Op == "llit" && len(e.Xs) > 0 {
+		return e.Xs[len(e.Xs)-1]
+	}
+	for _, k := range e.kids() {
+		if k.Op[0] == 'l' {
+			return k.lastLit()
+		}
+	}
+	return 7
+}
+
 func (e *c10E) hasConst() bool {
 	if e.Op == "lconst" {
 		return true
@@ -232,7 +249,7 @@ func (e *c10E) nofold() bool {
 		return (e.A.hasArg() || e.B.hasArg()) && e.A.nofold() && e.B.nofold() && e.C.nofold() && e.D.nofold()
 	case "lnumbers":
 		return e.A.hasArg()
-	case "lmap", "laccept", "ltop", "lskip":
+	case "lmap", "laccept", "ltop", "lskip", "lguard":
 		return e.hasArg() && e.B.nofold()
 	}
 	if !e.hasArg() {
@@ -267,7 +284,7 @@ func (e *c10E) alloc(next *int, consts []int) int {
 		h := *next
 		*next++
 		return h
-	case "lmap", "laccept", "ltop", "lskip":
+	case "lmap", "laccept", "ltop", "lskip", "lguard":
 		e.B.alloc(next, consts)
 		h := *next
 		*next++
@@ -335,7 +352,7 @@ func c10MkProg(name string, defs []c10Def, body *c10E, listBody bool) *c10Prog {
 			ds = append(ds, "DL "+d.E.coq())
 			k := "plain-const"
 			switch d.E.Op {
-			case "lmap", "laccept", "ltop", "lskip", "lconcat", "lnumbers":
+			case "lmap", "laccept", "ltop", "lskip", "lconcat", "lnumbers", "lguard":
 				k = "lazy-const"
 			case "lappend":
 				k = "spare-const"
@@ -385,6 +402,7 @@ func lAppend(l, x *c10E) *c10E {
 }
 func lMap(k, l *c10E) *c10E    { return &c10E{Op: "lmap", A: k, B: l} }
 func lAccept(k, l *c10E) *c10E { return &c10E{Op: "laccept", A: k, B: l} }
+func lGuard(v, l *c10E) *c10E  { return &c10E{Op: "lguard", A: v, B: l} }
 func lTop(n, l *c10E) *c10E    { return &c10E{Op: "ltop", A: n, B: l} }
 func lSkip(n, l *c10E) *c10E   { return &c10E{Op: "lskip", A: n, B: l} }
 func lConcat(a, b *c10E) *c10E { return &c10E{Op: "lconcat", A: a, B: b} }
@@ -410,6 +428,7 @@ func c10Pool() []*c10Prog {
 	a0, a1 := zS(sArg(0)), zS(sArg(1))
 	lazy := []c10Def{dL(lLit(1, 2, 3)), dL(lMap(sLit(1), lConst(0)))}
 	spare := []c10Def{dL(lLit(1, 2)), dL(lAppend(lConst(0), zS(sLit(3))))}
+	guard := []c10Def{dL(lLit(5, 6, 7, 8)), dL(lGuard(sLit(7), lConst(0)))}
 	return []*c10Prog{
 		// the probed C11 example: lazy constant, first c[x] materialises it, append on it
 		c10MkProg("lazy-index-append", lazy, zAdd(zIndex(lConst(1), a0), zSize(lAppend(lConst(1), a0))), false),
@@ -434,6 +453,18 @@ func c10Pool() []*c10Prog {
 		c10MkProg("runtime-lists", nil, zSum(lConcat(lSingle(a0), lNumbers(sAdd(sArg(1), sLit(1))))), false),
 		c10MkProg("numbers-lazy-result", nil, lSkip(sLit(1), lMap(sArg(1), lNumbers(sAdd(sArg(0), sLit(2))))), true),
 		c10MkProg("eval-const", lazy, lForce(lAccept(sAdd(sArg(0), sLit(3)), lConst(1))), true),
+		// lazy constants whose materialisation FAILS at an element k > 0 (the closure e->e+0%(e-7) fails on 7)
+		c10MkProg("guard-append", guard, lAppend(lConst(1), a0), true),
+		c10MkProg("guard-size-try", guard, zTry(zSize(lAppend(lConst(1), a0)), zAdd(a0, zS(sLit(100)))), false),
+		c10MkProg("guard-index", guard, zIndex(lConst(1), a0), false),
+		c10MkProg("guard-top", guard, lTop(sAdd(sArg(0), sLit(1)), lConst(1)), true),
+		c10MkProg("guard-first-sum", guard, zAdd(zFirst(lTop(sAdd(sArg(0), sLit(1)), lConst(1))), zTry(zSum(lMap(sArg(0), lConst(1))), a1)), false),
+		c10MkProg("guard-map-eval", guard, lForce(lMap(sArg(0), lConst(1))), true),
+		c10MkProg("guard-reverse-or-top", guard, zTry(zSize(lReverse(lTop(sAdd(sArg(0), sLit(2)), lConst(1)))), zSize(lTop(sArg(0), lConst(1)))), false),
+		c10MkProg("guard-never-fails", []c10Def{dL(lLit(5, 6, 7, 8)), dL(lGuard(sLit(99), lConst(0)))}, zAdd(zIndex(lConst(1), a0), zSize(lAppend(lConst(1), a1))), false),
+		c10MkProg("guard-at-run-time", lazy, zTry(zSize(lGuard(sArg(0), lConst(1))), zS(sLit(-1))), false),
+		c10MkProg("guard-chain", []c10Def{dL(lNumbers(sLit(6))), dL(lGuard(sLit(4), lConst(0))), dL(lMap(sLit(10), lConst(1))), dL(lConcat(lConst(2), lConst(0)))},
+			zTry(zIndex(lConst(3), a0), zSize(lTop(sArg(1), lConst(2)))), false),
 		// outside the modelled fragment
 		c10Opaque("lazy-mul-example", "let c=[1,2,3].map(e->e*2); c[a0]+c.append(a1).size()"),
 		c10Opaque("recursion", "func fib(n) if n<2 then n else fib(n-1)+fib(n-2); fib(a0+3)+a1"),
@@ -497,8 +528,9 @@ func c10FailingPool() []*c10Prog {
 // ---------------------------------------------------------------- random programs of the modelled fragment
 
 type c10Gen struct {
-	r      *Rng
-	nl, ns int // list / scalar constants available
+	r       *Rng
+	nl, ns  int  // list / scalar constants available
+	guarded bool // some constant may fail while it is iterated: no skip (iterator.Skip yields the errors of skipped elements), no `let n=c.size();`
 }
 
 func (g *c10Gen) sexp(d int, wantArg bool) *c10E {
@@ -549,6 +581,9 @@ func (g *c10Gen) lexp(d int) *c10E {
 	case 4:
 		return lTop(g.count(), g.lexp(d-1))
 	case 5:
+		if g.guarded {
+			return lGuard(sArg(g.r.Pick(2)), g.lexp(d-1))
+		}
 		return lSkip(g.count(), g.lexp(d-1))
 	case 6:
 		return lConcat(g.lexp(d-1), g.lexp(d-1))
@@ -615,6 +650,9 @@ func (g *c10Gen) closedL(d int) *c10E {
 	case 5:
 		return lTop(sLit(int64(g.r.Pick(4))), g.closedL(d-1))
 	case 6:
+		if g.guarded {
+			return lGuard(sLit(int64(g.r.Pick(9))), g.closedL(d-1))
+		}
 		return lSkip(sLit(int64(g.r.Pick(3))), g.closedL(d-1))
 	case 7:
 		return lConcat(g.closedL(d-1), g.closedL(d-1))
@@ -627,7 +665,7 @@ func (g *c10Gen) closedL(d int) *c10E {
 
 func c10RandomProg(r *Rng, n int) *c10Prog {
 	for {
-		g := &c10Gen{r: r}
+		g := &c10Gen{r: r, guarded: r.Chance(0.3)}
 		var defs []c10Def
 		nd := 1 + r.Pick(3)
 		for i := 0; i < nd; i++ {
@@ -637,7 +675,12 @@ func c10RandomProg(r *Rng, n int) *c10Prog {
 			}
 			defs = append(defs, dL(e))
 			g.nl++
-			if r.Chance(0.15) {
+			if g.guarded && i == 0 && nd > 1 {
+				// make sure there is a constant with a failing element behind a good prefix
+				defs = append(defs, dL(lGuard(sLit(e.lastLit()), lConst(0))))
+				g.nl++
+			}
+			if r.Chance(0.15) && !g.guarded {
 				defs = append(defs, dS(r.Pick(g.nl)))
 				g.ns++
 			}
@@ -654,7 +697,16 @@ func c10RandomProg(r *Rng, n int) *c10Prog {
 			ok = body.nofold() && body.hasArg() && body.hasConst()
 		}
 		if ok {
-			return c10MkProg(fmt.Sprintf("random-%d", n), defs, body, listBody)
+			p := c10MkProg(fmt.Sprintf("random-%d", n), defs, body, listBody)
+			if !g.guarded {
+				return p
+			}
+			// a definition over a failing constant may fail to fold (e.g. c1.append(4) with c1 failing): it would
+			// stay a run-time let, which is outside the model - such programs are dropped (decided on the real code)
+			s := c10NewSession(true)
+			if fn, err := s.generate(p); err == nil && len(fn.lists) == p.NewObjs {
+				return p
+			}
 		}
 	}
 }
